@@ -105,6 +105,28 @@ func TestVerifReload(t *testing.T) {
 				os.WriteFile(cfgfile, []byte(concrete.ConfigYAML(bases["B"], 2, sets, []uint{2, 3})+"colour: blue\n"), 0600)
 			case "badset":
 				os.WriteFile(cfgfile, []byte(concrete.ConfigYAML(bases["B"], 9, sets, []uint{2, 3})), 0600)
+			case "rekeyed-baddefault", "rekeyed-stray":
+				// configurations that are refused only AFTER their parameter sets have been parsed (undefined default / a
+				// directory that fails the check) and that re-define every id in use with other keys and costs: nothing
+				// of them may show in the configuration the agent goes on using
+				rk := map[uint]concrete.ParamSet{}
+				for id, ps := range sets {
+					if ps.Algo == "scrypt" {
+						k := append([]byte{}, ps.HmacKey...)
+						for i := range k {
+							k[i] ^= 0x5a
+						}
+						ps.HmacKey = k
+					} else {
+						ps.Time++
+					}
+					rk[id] = ps
+				}
+				if kind == "rekeyed-baddefault" {
+					os.WriteFile(cfgfile, []byte(concrete.ConfigYAML(bases["A"], 9, rk, []uint{1, 2, 3})), 0600)
+				} else {
+					os.WriteFile(cfgfile, []byte(concrete.ConfigYAML(bases["stray"], 1, rk, []uint{1, 2, 3})), 0600)
+				}
 			case "missing":
 				os.Remove(cfgfile)
 			default:
